@@ -142,13 +142,20 @@ def coeffs(ob, rec, dtv, label):
         out.append((letter, c))
     return out
 
-def merged(word):
+def merged(word, tol=Fraction(1, 10 ** 15)):
+    """adjacent equal letters combine (exp(aX)exp(bX) = exp((a+b)X)); combined coefficients that cancel (to 1e-15, the rounding of
+    the tables) drop out, which may bring further equal letters together"""
     out = []
     for l, c in word:
         if c == 0: continue
-        if out and out[-1][0] == l: out[-1] = (l, out[-1][1] + c)
+        if out and out[-1][0] == l:
+            out[-1] = (l, out[-1][1] + c)
+            if abs(out[-1][1]) <= tol: out.pop()
         else: out.append((l, c))
     return out
+
+def same_word(w1, w2, tol=Fraction(1, 10 ** 13)):
+    return len(w1) == len(w2) and all(a[0] == b[0] and abs(a[1] - b[1]) <= tol for a, b in zip(w1, w2))
 
 def base_sim(dom, ctx, integ, sets, N=2, conc=False):
     I = new_interp(dom, ctx); I.concrete_env = True
@@ -168,8 +175,9 @@ NOOP = lambda I, *a: None
 
 def run_wh(u, conc=False):
     """WHFast / SABA: primitives kepler(A), com(C, rides with A), interaction(B), jump(J)"""
-    rep = Report(); integ = u['integ']; sets = u['set']
-    label = "%s %s " % (integ, {k.split('.')[-1]: (v.replace('REB_WHFAST_', '').replace('REB_', '') if isinstance(v, str) else v) for k, v in sets.items()})
+    rep = Report(); integ = u['integ']; sets = dict(u['set'])
+    if u.get('unsync'): sets['ri_%s.safe_mode' % integ.lower()] = 0
+    label = "%s%s %s " % (integ, ' deferred synchronisation' if u.get('unsync') else '', {k.split('.')[-1]: (v.replace('REB_WHFAST_', '').replace('REB_', '') if isinstance(v, str) else v) for k, v in sets.items()})
     dom = Conc() if conc else Real(); ctx = PathCtx()
     I, sim, dt = base_sim(dom, ctx, integ, sets, conc=conc)
     rec = Recorder(dom, dt)
@@ -187,7 +195,7 @@ def run_wh(u, conc=False):
     for f in list(I.mod.funcs):
         if f.startswith('@reb_particles_transform_'): I.stubs[f] = NOOP
     try:
-        I.call('@reb_simulation_step', [sim.ptr])
+        for _ in range(2 if u.get('unsync') else 1): I.call('@reb_simulation_step', [sim.ptr])
         I.call('@reb_simulation_synchronize', [sim.ptr])
     except Exception as e:
         if conc: raise
@@ -200,7 +208,15 @@ def run_wh(u, conc=False):
         ob.prove("rejected option combination ends in the error path", bool(msgs), [], domain='control'); return ob.results if conc else rep
     ob.prove("accepted option combination raises no error", not msgs, [], domain='control', sample=dict(messages=msgs[:2]))
     cw = coeffs(ob, rec, dt, label)
+    if u.get('_word_only'): return cw
     if cw is None: return ob.results if conc else rep
+    if u.get('unsync'):
+        safe = run_wh(dict(u, unsync=False, _word_only=True), conc)
+        keep = lambda w: merged([(l, c) for l, c in w if l in ('A', 'B', 'J')])
+        ob.prove("two unsynchronised steps + synchronize apply the same operator word as two synchronised steps", safe is not None and same_word(keep(cw), keep(safe + safe)), [], domain='ground',
+                 sample=dict(unsynchronised=[(l, float(c)) for l, c in keep(cw)][:30], synchronised_twice=[(l, float(c)) for l, c in keep(safe + safe)][:30] if safe else None))
+        ob.prove("centre-of-mass drift over the two steps == 2 dt", near(sum(c for l, c in cw if l == 'C') / 2), [], domain='ground')
+        return ob.results if conc else rep
     A = [c for l, c in cw if l == 'A']; C = [c for l, c in cw if l == 'C']; B = [c for l, c in cw if l == 'B']; J = [c for l, c in cw if l == 'J']
     near1 = lambda s_: z3.And(z3.RealVal(s_) - 1 <= z3.RealVal('1e-14'), 1 - z3.RealVal(s_) <= z3.RealVal('1e-14'))
     ob.prove("sum of Kepler-drift coefficients == dt (to 1e-14)", near1(sum(A)), [], domain='ground', sample=dict(word=[(l, float(c)) for l, c in cw][:40]))
@@ -220,18 +236,27 @@ def run_wh(u, conc=False):
 
 def run_eos(u, conc=False):
     rep = Report(); phi0, phi1, n = u['phi0'], u['phi1'], u['n']
-    label = "EOS phi0=%s phi1=%s n=%d " % (phi0.replace('REB_EOS_', ''), phi1.replace('REB_EOS_', ''), n)
+    label = "EOS%s phi0=%s phi1=%s n=%d " % (' deferred synchronisation' if u.get('unsync') else '', phi0.replace('REB_EOS_', ''), phi1.replace('REB_EOS_', ''), n)
     dom = Conc() if conc else Real(); ctx = PathCtx()
-    I, sim, dt = base_sim(dom, ctx, 'EOS', {'ri_eos.phi0': phi0, 'ri_eos.phi1': phi1, 'ri_eos.n': n}, conc=conc)
+    sets0 = {'ri_eos.phi0': phi0, 'ri_eos.phi1': phi1, 'ri_eos.n': n}
+    if u.get('unsync'): sets0['ri_eos.safe_mode'] = 0
+    I, sim, dt = base_sim(dom, ctx, 'EOS', sets0, conc=conc)
     ob = Ground(Obligations(rep, Prover(t_inproc_ms=10000, use_external=False), label), u, conc)
     # outer word: drift_shell0 / interaction_shell0 stubbed
     rec = Recorder(dom, dt)
     I.stubs['@reb_integrator_eos_drift_shell0'] = lambda I_, r, a: rec.rec('A', a)
     I.stubs['@reb_integrator_eos_interaction_shell0'] = lambda I_, r, y, v: rec.rec('B', y, None if is_zero(v) else 'modified')
     I.stubs['@reb_simulation_update_acceleration'] = NOOP; I.stubs['@reb_calculate_acceleration'] = NOOP
-    I.call('@reb_simulation_step', [sim.ptr]); I.call('@reb_simulation_synchronize', [sim.ptr])
+    for _ in range(2 if u.get('unsync') else 1): I.call('@reb_simulation_step', [sim.ptr])
+    I.call('@reb_simulation_synchronize', [sim.ptr])
     rep.paths += 1; rep.add_interp(I)
     cw = coeffs(ob, rec, dt, label + "outer")
+    if u.get('_word_only'): return cw
+    if u.get('unsync'):
+        safe = run_eos(dict(u, unsync=False, _word_only=True), conc)
+        ob.prove("two unsynchronised steps + synchronize apply the same operator word as two synchronised steps", cw is not None and safe is not None and same_word(merged(cw), merged(safe + safe)), [], domain='ground',
+                 sample=dict(unsynchronised=[(l, float(c)) for l, c in merged(cw or [])][:30], synchronised_twice=[(l, float(c)) for l, c in merged((safe or []) * 2)][:30]))
+        return ob.results if conc else rep
     if cw is not None:
         processed = phi0 in ('REB_EOS_PLF7_6_4', 'REB_EOS_PMLF4', 'REB_EOS_PMLF6')
         w = merged(cw)
@@ -426,12 +451,13 @@ def main():
     correctors = [0, 3, 5, 7, 11, 17]
     for co in coords:
         for ke in kernels:
-            for cor in (correctors if tier == 'thorough' or (ke == 'DEFAULT' and co == 'JACOBI') else [0]):
+            for cor in (correctors if tier == 'thorough' or (ke == 'DEFAULT' and co == 'JACOBI') else ([0, 11] if (ke == 'DEFAULT' and co == 'BARYCENTRIC') else [0])):
                 sets = {'ri_whfast.coordinates': 'REB_WHFAST_COORDINATES_' + co, 'ri_whfast.kernel': 'REB_WHFAST_KERNEL_' + ke, 'ri_whfast.corrector': cor}
                 # documented restrictions: non-default kernels and correctors need Jacobi coordinates
-                bad = (co != 'JACOBI' and (ke != 'DEFAULT' or cor != 0))
+                # documented restrictions (reb_integrator_whfast_init): non-default kernels need Jacobi coordinates, correctors Jacobi or barycentric
+                bad = (co != 'JACOBI' and ke != 'DEFAULT') or (cor != 0 and co not in ('JACOBI', 'BARYCENTRIC'))
                 order = None
-                if co == 'JACOBI' and ke == 'DEFAULT': order = (cor if cor else 2, 2)
+                if co in ('JACOBI', 'BARYCENTRIC') and ke == 'DEFAULT': order = (cor if cor else 2, 2)
                 if co == 'JACOBI' and ke == 'COMPOSITION' and cor == 0: order = None
                 us.append(dict(what='wh', integ='WHFAST', set=sets, expect_error=bad, order=order))
     for ty, order in SABA_ORDERS.items():
@@ -444,6 +470,13 @@ def main():
             for n in ((1, 2) if tier == 'quick' else (1, 2, 3)):
                 if tier == 'quick' and n == 2 and p1 != 'REB_EOS_LF': continue
                 us.append(dict(what='eos', phi0=p0, phi1=p1, n=n))
+    # deferred synchronisation (safe_mode = 0): two steps + synchronize must be the same word as two synchronised steps
+    for co in coords:
+        us.append(dict(what='wh', integ='WHFAST', set={'ri_whfast.coordinates': 'REB_WHFAST_COORDINATES_' + co}, unsync=True))
+    for ke in kernels[1:]: us.append(dict(what='wh', integ='WHFAST', set={'ri_whfast.kernel': 'REB_WHFAST_KERNEL_' + ke}, unsync=True))
+    for cor in ((11,) if tier == 'quick' else correctors[1:]): us.append(dict(what='wh', integ='WHFAST', set={'ri_whfast.corrector': cor}, unsync=True))
+    for ty in list(SABA_ORDERS) + ['REB_SABA_CM_1', 'REB_SABA_CL_4']: us.append(dict(what='wh', integ='SABA', set={'ri_saba.type': ty}, unsync=True))
+    for p0 in eos_types: us.append(dict(what='eos', phi0=p0, phi1='REB_EOS_LF', n=1, unsync=True))
     for o in (2, 4, 6, 8, 10): us.append(dict(what='janus', order=o))
     for fn in ('reb_integrator_mercurius_L_mercury', 'reb_integrator_mercurius_L_C4', 'reb_integrator_mercurius_L_C5'): us.append(dict(what='changeover', fn=fn, two_point=(fn != 'reb_integrator_mercurius_L_C5')))
     rep = run_units(us, worker)
